@@ -16,6 +16,7 @@ OTHER = [errno.EPIPE, errno.EBADF, errno.ENOTCONN, errno.EINVAL, errno.ENOBUFS, 
          errno.EACCES, errno.ECONNABORTED, errno.EIO, errno.ENOMEM]
 WOULD = [errno.EAGAIN, errno.EWOULDBLOCK]
 FAKE_FD = 987654
+REAL_OS_WRITE, REAL_OS_READ = os.write, os.read      # the unpatched functions
 
 
 def oserr(code):
